@@ -1,0 +1,13 @@
+//go:build verif
+
+// Contracts for the command-line entry point, read by /verif/bin/gvc (contract-based deductive verification).
+// This file contains comments only; it is compiled only under the build tag "verif".
+package main
+
+// posArgs: the positional arguments (before "--") as returned by args.Get in the --init branch.
+//@ ghost var posArgs []string scratch
+
+//@ func run
+//@   site args.Get#1 ghost posArgs := result.0
+//@   site filepathext.IsExtOnly#1 requires arg0 == posArgs[0]     -- the --init path is the first positional argument   [C19]
+//@   site (*Vars).Set#1 requires arg1 == "CLI_ARGS" && dyn(arg2.Value) == type(string)   -- one string, not a list  [C19]
